@@ -124,3 +124,7 @@ End PandapowerLoop.
 From Coq Require Import String.
 Fixpoint wget (k : string) (l : list (string * string)) : string :=
   match l with [] => "" | (a, b) :: r => if String.eqb a k then b else wget k r end.
+
+(* substring test for the comma-separated class lists of the wiring table *)
+Fixpoint contains (sub s : string) : bool :=
+  prefix sub s || match s with EmptyString => false | String _ r => contains sub r end.
